@@ -144,7 +144,8 @@ public:
         for (std::size_t i = 0; i != size; ++i)
         {
             RandomNumberEngine rne;
-            in >> rne;
+            // not every engine's extraction operator skips the line break written before it
+            in >> std::ws >> rne;
             generators_.push_back(rne);
         }
     }
